@@ -910,10 +910,17 @@ def ml_gmm_m_step(
 
     # Update means if requested
     # (Equation 9.24 of Bishop, "Pattern recognition and machine learning", 2006)
+    # A component that received (almost) no data keeps its mean and variance:
+    # sum_px / threshold would move it towards the origin of the feature space,
+    # whatever the data are.
+    starved = (statistics.n < mean_var_update_threshold)[:, None]
+
     if update_means:
         logger.debug("Update means.")
         # Using n with the applied threshold
-        machine.means = statistics.sum_px / thresholded_n[:, None]
+        machine.means = np.where(
+            starved, machine.means, statistics.sum_px / thresholded_n[:, None]
+        )
 
     # Update variances if requested
     # (Equation 9.25 of Bishop, "Pattern recognition and machine learning", 2006)
@@ -924,9 +931,13 @@ def ml_gmm_m_step(
         logger.debug("Update variances.")
         # variance about the machine's current means (which are the new means when
         # they were just updated, and the unchanged ones when update_means is False)
-        machine.variances = (
-            statistics.sum_pxx - 2 * machine.means * statistics.sum_px
-        ) / thresholded_n[:, None] + np.power(machine.means, 2)
+        machine.variances = np.where(
+            starved,
+            machine.variances,
+            (statistics.sum_pxx - 2 * machine.means * statistics.sum_px)
+            / thresholded_n[:, None]
+            + np.power(machine.means, 2),
+        )
 
 
 def map_gmm_m_step(
